@@ -232,6 +232,15 @@ def online_gap(ix, rep, mon):
     cfg = flow.CFG(f.node)
     for attr, want in (('previous_time', tparam), ('update_counter', None)):
         nodes = [n for n in cfg.nodes() if isinstance(cfg.stmt[n], ast.Assign) and E.self_loc(cfg.stmt[n].targets[0]) == attr]
+        aug = [n for n in cfg.nodes() if isinstance(cfg.stmt[n], ast.AugAssign) and E.self_loc(cfg.stmt[n].target) == attr]
+
+        def stored(n):
+            st = cfg.stmt[n]
+            if isinstance(st, ast.AugAssign):
+                # self.c += 1  is  self.c = self.c + 1
+                return ast.unparse(ast.BinOp(left=st.target, op=st.op, right=st.value))
+            return ast.unparse(st.value)
+        nodes = nodes + aug
         blocked = set(nodes)
         seen = set()
         stack = [cfg.entry]
@@ -243,9 +252,9 @@ def online_gap(ix, rep, mon):
             stack.extend(cfg.succ[n])
         okv = True
         if attr == 'previous_time':
-            okv = all(ast.unparse(cfg.stmt[n].value) == want for n in nodes)
+            okv = all(stored(n) == want for n in nodes)
         else:
-            okv = all(ast.unparse(cfg.stmt[n].value).replace(' ', '') in ('self.update_counter+1', '1+self.update_counter') for n in nodes)
+            okv = all(stored(n).replace(' ', '') in ('self.update_counter+1', '1+self.update_counter') for n in nodes)
         after = all(cfg.stmt[n].lineno > c.lineno for n in nodes)
         if nodes and cfg.exit not in seen and okv and after:
             rep.ok('R-GAPLOOP', f.module.rel, sym, 'online:%s' % attr, 'updated on every normal path after the check', cfg.stmt[nodes[0]].lineno)
